@@ -367,10 +367,10 @@ def run_c07(R, tier, rng):
     # skewed shapes (many short or empty rows next to a long one) with floats that an offset-and-subtract scheme would not survive
     for ls in ([2] + [0] * 8 + [2, 1], [16, 2, 1, 1, 1, 1], [1, 0, 0, 0, 0, 0, 3], [0] * 6 + [5], [12] + [1] * 9,
                [1 + (i % 3) for i in range(400)] + [250], [300] + [i % 2 for i in range(700)], [2] * 90 + [2000],       # these three: a padded matrix of 10^5 and more cells for ~10^3 elements
-               [4, 3], [4, 0, 3, 1]):
+               [8, 3], [8, 0, 3, 1], [4, 4, 3]):
         for dt in ("float64", "float32"):
             for vals in ([float("inf"), 1.0, 0.1, 2.0, 0.3], [1e17, 1.0, 0.1, -1e17, 0.5, 1.0], [0.1, 0.2, 0.3, 0.7],
-                         ([2.0 ** 52] * 4 + [1.0, 1.0, 1.0, 3.0] if dt == "float64" else [2.0 ** 23] * 4 + [1.0, 1.0, 1.0, 3.0])):      # whole numbers, each exactly representable, whose running total over earlier rows is not
+                         ([2.0 ** 51] * 8 + [1.0, 1.0, 1.0, 3.0] if dt == "float64" else [2.0 ** 22] * 8 + [1.0, 1.0, 1.0, 3.0])):      # whole numbers, each exactly representable, whose running total over earlier rows is not
                 X = fill(ls, vals, 0); rows = [np.array(r, dtype=dt) for r in X]
                 for ufn in ("add", "subtract"):
                     uf = getattr(np, ufn)
